@@ -39,7 +39,8 @@ def _mk(kind, slot, spec):
 def _line_specs(nexp, with_bad=False):
     out = [('D',)] + [('I', i) for i in range(COUNT)] + [('E', l) for l in range(nexp)]
     if with_bad:
-        out += [('I', COUNT), ('I', COUNT + 2), ('E', nexp)]
+        # 100..103: selectors for UINT_MAX, 0x80000000, 0x80000002, COUNT + 2^31 (see the driver)
+        out += [('I', COUNT), ('I', COUNT + 2), ('E', nexp), ('I', 100), ('I', 101), ('I', 102), ('I', 103)]
     return out
 
 
